@@ -367,7 +367,10 @@ class HistogramDensityMethod(BatchDetector):
         self.total_epsilon = 0
 
         if self.detect_batch == 1:
-            self.update(test_proxy)
+            # the proxy batch is internal: hand over its values only, so that its
+            # labels (the reference's, possibly defaults) are neither registered
+            # as, nor compared with, the column names user input has to match
+            self.update(test_proxy.to_numpy())
 
     def _build_histograms(self, dataset, min_values, max_values):
         """
